@@ -18,6 +18,7 @@ import Driver.TagCodec2
 import Driver.Id3File
 import Driver.ApeFile
 import Driver.Iff
+import Driver.Dsf
 open Driver
 
 def dispatch (line : String) : String :=
@@ -44,6 +45,7 @@ def dispatch (line : String) : String :=
     | "id3f" => id3fOp a
     | "apef" => apefOp a
     | "iff" => iffOp a
+    | "dsf" => dsfOp a
     | "flacinfo" => flacInfoOp a
     | "ping" => "pong"
     | _ => "bad-op"
